@@ -8,14 +8,14 @@ SPEC = {
     "needs_plz": False,
     "level": "proof",
     "level_text": (
-        "PARTIAL. The property as stated is refuted for the pinned code (C22_exact_refuted; witnesses "
-        "C22_witness_blacklist_string_prefix: blacklist `out` hides `output/`; C22_witness_nondir_skipdir_cuts_siblings / "
-        "C22_witness_plzout_file: SkipDir returned for a regular file makes godirwalk drop the later siblings). Proved for all "
-        "trees, configurations and listing orders (unbounded, mutual structural induction): C22_sound (nothing outside the "
-        "component-wise specification is ever yielded, any prefix argument), C22_exact_partial / _set (exactly the specified "
-        "list, same order, on trees where no blacklist entry string-matches without a whole-component match and no "
-        "non-directory entry triggers SkipDir), C22_fixed_exact (the repaired callback is exact unconditionally), "
-        "C22_component_test (name==dir || HasPrefix(name, dir+\"/\") is component-sequence equality on clean paths). "
+        "FULL. After the two fix: commits (07b1616 blacklist by whole path components, effef99 SkipDir for directories only) "
+        "C22_exact proves, for all trees, configurations, start directories and listing orders (unbounded, mutual structural "
+        "induction), that FindAllBuildFiles(config, dir, \"\") yields exactly the specified list: the BUILD files of the "
+        "directories under dir that are not plz-out, hidden, experimental or blacklisted by whole components -- same "
+        "elements, same order; C22_exact_set (order-independent as a set), C22_sound (any prefix argument), "
+        "C22_component_test, C22_spec_declarative (the recursive specification = the declarative statement). On record as "
+        "theorems about the old structure Facts.canon: C22_old_witness_blacklist_string_prefix, "
+        "C22_old_witness_nondir_skipdir_cuts_siblings, C22_witnesses_if_old_callback, C22_old_structure_refuted. "
         "Model: FindAllBuildFiles' callback interpreted from formulas regenerated from the source + godirwalk's sorted "
         "walk, symlink handling and SkipDir rules. Not modelled: label construction in findOriginalTask, subrepos, "
         "query/completions.go's separate walker, I/O errors and dangling symlinks (log.Fatalf), a non-directory root."),
@@ -35,6 +35,10 @@ SPEC = {
 }
 
 MUTATIONS = """
+After the fix commits (facts must be propositionally equivalent to Facts.repaired):
+ R1 re-introduce `strings.HasPrefix(name, dir)` in the blacklist loop     -> see below
+ R2 drop the `isDir &&` guard of the blacklist loop                        -> see below
+Before the fix commits:
 Dry-runs on a scratch copy (VERIF_REPO=/var/tmp/mC22 ./check C22 quick), findings loaded from findings_inbox/C22.jsonl:
  M1 plz.go:252  drop `isDir &&` from the hidden test            -> exit 1, C22_facts_ok fails, VIOLATION class unexplained,
                                                                    input: hidden FILE .hid first in the root, BUILD.plz lost
